@@ -5,6 +5,9 @@
         pd.extend(map(lambda x: int(4**(d+1) + x), self.pixeldict[d]))
     return sorted(pd)
 
+(or any of the equivalent shapes listed in UniqTranslator: list comprehension / generator / append loop, hoisted
+offset, renamed locals, `if not self.pixeldict[d]: continue`, in-place sort)
+
 becomes   Gen.C12.encode (d x : Nat) : Nat      -- the lambda body
           Gen.C12.levels (maxdepth : Nat) : List Nat   -- the range the loop runs over
 
@@ -27,61 +30,153 @@ from py2lean import Untranslatable  # noqa: E402
 
 
 class UniqTranslator(py2lean.Translator):
-    """py2lean.Translator + `for v in range(...)` headers + `acc.extend(map(lambda x: E, self.pixeldict[v]))`"""
+    """py2lean.Translator restricted to the shapes `_uniq` can take and extended by them:
+
+        acc = []
+        for v in range(a, b):                       # exactly one loop; its range becomes `levels`
+            [if not self.pixeldict[v]: continue]     # skipping an EMPTY level is the only guard accepted
+            [name = <natural-number expression>]     # hoisted temporaries (inlined as lets)
+            [alias = self.pixeldict[v]]
+            acc.extend(map(lambda x: E, IT)) | acc.extend([E for x in IT]) | acc.extend(E for x in IT)
+              | acc += [E for x in IT] | for x in IT: acc.append(E)          # E becomes `encode`
+        [acc.sort()]
+        return acc | return sorted(acc)
+
+    with IT = self.pixeldict[v] (or its alias).  Every other statement — another loop, a filter, a condition on
+    anything but emptiness of the level, a comprehension with an `if` — raises Untranslatable: the check then uses
+    the hand definitions and the correspondence alone ties `_uniq` to the model.  Nothing is silently dropped."""
 
     def __init__(self, *a, **kw):
         super().__init__(*a, **kw)
         self.loopvar = None
         self.nloops = 0
         self.nlambda = 0
+        self.acc = None
+        self.aliases = set()
+        self.sorted_in_place = False
 
-    def stmt(self, s):
-        if isinstance(s, ast.For):
-            if not (isinstance(s.target, ast.Name) and isinstance(s.iter, ast.Call)
-                    and self.callee_name(s.iter.func) == 'range'):
-                raise Untranslatable(f"loop header {ast.unparse(s.target)} in {ast.unparse(s.iter)}")
-            if s.orelse:
-                raise Untranslatable("for/else")
-            self.nloops += 1
-            if self.nloops > 1:
-                raise Untranslatable("more than one loop in _uniq")
-            c, t, d = self.expr(s.iter)
-            if t != 'LN':
-                raise Untranslatable("loop range is not a list of naturals")
-            self.bind('__range__', c, t, d)
-            v = s.target.id
-            self.loopvar = v
-            self.params[v] = 'N'
-            self.env[v] = (py2lean.lean_ident(v), 'N')
-            self.stmts(s.body)
-            return
-        if isinstance(s, ast.Expr) and isinstance(s.value, ast.Call) and isinstance(s.value.func, ast.Attribute) \
-                and s.value.func.attr == 'extend' and len(s.value.args) == 1:
-            arg = s.value.args[0]
-            if not (isinstance(arg, ast.Call) and self.callee_name(arg.func) == 'map' and len(arg.args) == 2
-                    and isinstance(arg.args[0], ast.Lambda)):
-                raise Untranslatable(f"extend argument {ast.unparse(arg)}")
+    # -- helpers
+    def is_level_set(self, node):
+        txt = ast.unparse(node)
+        return self.loopvar is not None and (txt == f"self.pixeldict[{self.loopvar}]" or txt in self.aliases)
+
+    def encoder(self, argname, body):
+        self.nlambda += 1
+        if self.nlambda > 1:
+            raise Untranslatable("more than one encoder")
+        self.params[argname] = 'N'
+        self.env[argname] = (py2lean.lean_ident(argname), 'N')
+        self.lambda_arg = py2lean.lean_ident(argname)
+        c, t, d = self.expr(body)
+        if t != 'N':
+            raise Untranslatable(f"encoder has type {t}, not a natural number (true division?)")
+        self.bind('__lambda__', c, t, d)
+
+    def comprehension(self, node):
+        """[E for x in IT] / (E for x in IT)"""
+        if len(node.generators) != 1:
+            raise Untranslatable("nested comprehension")
+        g = node.generators[0]
+        if g.ifs or g.is_async or not isinstance(g.target, ast.Name):
+            raise Untranslatable("comprehension with a filter")
+        if not self.is_level_set(g.iter):
+            raise Untranslatable(f"encoder is mapped over {ast.unparse(g.iter)}, not self.pixeldict[<loop variable>]")
+        self.encoder(g.target.id, node.elt)
+
+    def extend_arg(self, arg):
+        if isinstance(arg, ast.Call) and self.callee_name(arg.func) == 'map' and len(arg.args) == 2 \
+                and isinstance(arg.args[0], ast.Lambda):
             lam, it = arg.args
-            if self.loopvar is None or ast.unparse(it) != f"self.pixeldict[{self.loopvar}]":
+            if not self.is_level_set(it):
                 raise Untranslatable(f"encoder is mapped over {ast.unparse(it)}, not self.pixeldict[<loop variable>]")
             la = lam.args
             if len(la.args) != 1 or la.vararg or la.kwarg or la.kwonlyargs or la.defaults:
                 raise Untranslatable("lambda signature")
-            x = la.args[0].arg
-            self.nlambda += 1
-            if self.nlambda > 1:
-                raise Untranslatable("more than one encoder")
-            self.params[x] = 'N'
-            self.env[x] = (py2lean.lean_ident(x), 'N')
-            self.lambda_arg = py2lean.lean_ident(x)
-            c, t, d = self.expr(lam.body)
+            self.encoder(la.args[0].arg, lam.body)
+        elif isinstance(arg, (ast.ListComp, ast.GeneratorExp)):
+            self.comprehension(arg)
+        else:
+            raise Untranslatable(f"extend argument {ast.unparse(arg)}")
+
+    def is_acc_call(self, s, attr):
+        return isinstance(s, ast.Expr) and isinstance(s.value, ast.Call) and isinstance(s.value.func, ast.Attribute) \
+            and s.value.func.attr == attr and isinstance(s.value.func.value, ast.Name) \
+            and s.value.func.value.id == self.acc
+
+    # -- the function body
+    def top(self, body):
+        for s in body:
+            if isinstance(s, ast.Expr) and isinstance(s.value, ast.Constant) and isinstance(s.value.value, str):
+                continue                                            # docstring
+            if isinstance(s, ast.Assign) and len(s.targets) == 1 and isinstance(s.targets[0], ast.Name) \
+                    and isinstance(s.value, ast.List) and not s.value.elts and self.acc is None:
+                self.acc = s.targets[0].id
+            elif isinstance(s, ast.For):
+                self.loop(s)
+            elif self.acc and self.is_acc_call(s, 'sort') and not s.value.args and not s.value.keywords:
+                self.sorted_in_place = True
+            elif isinstance(s, ast.Return):
+                txt = ast.unparse(s.value) if s.value is not None else ''
+                if txt not in (self.acc, f"sorted({self.acc})"):
+                    raise Untranslatable("return value is not the accumulated list")
+                self.returned = True
+            else:
+                raise Untranslatable("statement outside the accepted shape: " + " ".join(ast.unparse(s).split())[:60])
+
+    def loop(self, s):
+        if self.acc is None:
+            raise Untranslatable("loop before the accumulator is initialised")
+        if not (isinstance(s.target, ast.Name) and isinstance(s.iter, ast.Call)
+                and self.callee_name(s.iter.func) == 'range'):
+            raise Untranslatable(f"loop header {ast.unparse(s.target)} in {ast.unparse(s.iter)}")
+        if s.orelse:
+            raise Untranslatable("for/else")
+        self.nloops += 1
+        if self.nloops > 1:
+            raise Untranslatable("more than one loop in _uniq")
+        c, t, d = self.expr(s.iter)
+        if t != 'LN':
+            raise Untranslatable("loop range is not a list of naturals")
+        self.bind('__range__', c, t, d)
+        v = s.target.id
+        self.loopvar = v
+        self.params[v] = 'N'
+        self.env[v] = (py2lean.lean_ident(v), 'N')
+        for b in s.body:
+            self.loop_stmt(b)
+
+    def loop_stmt(self, s):
+        level = f"self.pixeldict[{self.loopvar}]"
+        if isinstance(s, ast.If):
+            # only "skip an empty level" (which contributes nothing anyway)
+            test = ast.unparse(s.test)
+            empties = {f"not {level}", f"len({level}) == 0", f"not len({level})"} | \
+                {f"not {a}" for a in self.aliases} | {f"len({a}) == 0" for a in self.aliases}
+            if test in empties and not s.orelse and len(s.body) == 1 and isinstance(s.body[0], ast.Continue):
+                return
+            raise Untranslatable(f"condition inside the loop: if {test}")
+        if isinstance(s, ast.Assign) and len(s.targets) == 1 and isinstance(s.targets[0], ast.Name):
+            name = s.targets[0].id
+            if ast.unparse(s.value) == level:
+                self.aliases.add(name)
+                return
+            c, t, d = self.expr(s.value)            # Untranslatable propagates: nothing becomes an opaque input
             if t != 'N':
-                raise Untranslatable(f"encoder has type {t}, not a natural number (true division?)")
-            self.bind('__lambda__', c, t, d)
+                raise Untranslatable(f"temporary {name} is not a natural number")
+            self.bind(name, c, t, d)
             return
-        if isinstance(s, ast.While):
-            raise Untranslatable("while loop")
-        super().stmt(s)
+        if self.is_acc_call(s, 'extend') and len(s.value.args) == 1 and not s.value.keywords:
+            self.extend_arg(s.value.args[0])
+            return
+        if isinstance(s, ast.AugAssign) and isinstance(s.op, ast.Add) and isinstance(s.target, ast.Name) \
+                and s.target.id == self.acc and isinstance(s.value, ast.ListComp):
+            self.comprehension(s.value)
+            return
+        if isinstance(s, ast.For) and isinstance(s.target, ast.Name) and self.is_level_set(s.iter) and not s.orelse \
+                and len(s.body) == 1 and self.is_acc_call(s.body[0], 'append') and len(s.body[0].value.args) == 1:
+            self.encoder(s.target.id, s.body[0].value.args[0])
+            return
+        raise Untranslatable("statement inside the loop outside the accepted shape: " + " ".join(ast.unparse(s).split())[:60])
 
 
 def _emit_fixed(tr, lean_name, var, sig, allowed, rename):
@@ -108,10 +203,10 @@ def translate_uniq(src_path, qualname, params, subst):
     tree = ast.parse(open(src_path).read())
     fn = py2lean.find_function(tree, qualname)
     tr = UniqTranslator('int', params, subst, None)
-    tr.stmts(list(fn.body))
-    rets = [n for n in ast.walk(fn) if isinstance(n, ast.Return) and n.value is not None]
-    if len(rets) != 1 or ast.unparse(rets[0].value) not in ('sorted(pd)', 'pd'):
-        raise Untranslatable("return value is not the accumulated list")
+    tr.returned = False
+    tr.top(list(fn.body))
+    if not tr.returned:
+        raise Untranslatable("no return of the accumulated list")
     if tr.loopvar is None or tr.nlambda != 1:
         raise Untranslatable("no loop / no encoder found")
     d = py2lean.lean_ident(tr.loopvar)
